@@ -584,6 +584,9 @@ func c16Run(c c16Case) (v vVerdict) {
 		}
 		if !saved {
 			if savedTopics > 0 {
+				if vStarved(20 * time.Second) {
+					return vVerdict{Inconclusive: "no save within 8 s, but this process was not scheduled for most of a second meanwhile (overloaded machine)"}
+				}
 				return vFailf("not-saved", "no configuration was saved within 8 s of the last status change (%d saveable topics published)", savedTopics)
 			}
 		} else {
